@@ -162,7 +162,7 @@ func (e *EndpointExporter) setCommonAttributes(
 		param = param.AsOptional()
 	}
 	if param.Type == object {
-		param.Schema.ExtraProps["$ref"] = "#/definitions/" + param.Format
+		param.Schema = spec.RefSchema("#/definitions/" + param.Format)
 	}
 }
 
